@@ -30,7 +30,7 @@ CHECKS.update({
     "C04": simcheck("§4 C04", "Generated deadlines on the tick grid with requests and sweeps landing before/at/after them; oracle O1-O4: no pending answer at or after the deadline, no time-out stored or reported before it, timed-out rows AND every timed-out promise a response carries have empty value / no key / completed_on = timeout / resolve-on-timeout honoured, caller state never installed at or after the deadline. F13 (new promise already overdue answered 201 PENDING) is a listed known finding."),
     "C06": dict(engine="sim", category="fault_enumeration", design="§4 C06",
                 technique="property-based testing with crash-point enumeration: each generated case is re-run from its recorded decisions once per crash opportunity; invariant oracle over snapshots before/after restart",
-                text="Tier (a): every generated case (workload + schedule) is executed once to count its crash opportunities (before/after every store commit, between any two coroutine steps, inside background sweeps, at flush ends) and then re-executed from the recorded decisions with a crash at each of them (all of them when <= cap, evenly sampled otherwise; thorough cap 400), followed by a deterministic recovery on the same database file with an optional second crash. Oracle D1-D4: acknowledged => committed, restart changes nothing, no committed state is torn (registrations of completed promises, routed promise without task, request effect spread over two transactions), the stored backlog is worked off after restart unless the sweep concerned runs at full speed (capacity); the recovery includes a downtime, and whatever the other properties' statement-derived oracles object to in the crashed-and-recovered run but not in the crash-free run of the same case counts as a loss across the restart; commit failures (ambiguous outcome) are injected as well. Tier (b): real process, default store configuration, SIGKILL under load / SIGTERM / SIGINT, 1-3 kill-restart rounds, read-back of every acknowledged create/complete/subscription/schedule/lock, torn-state check on the database file, background sweep resumes; now and then the first start attempt meets a database another process holds locked: it may fail, the file may not vanish.",
+                text="Tier (a): every generated case (workload + schedule) is executed once to count its crash opportunities (before/after every store commit, between any two coroutine steps, inside background sweeps, at flush ends) and then re-executed from the recorded decisions with a crash at each of them (all of them when <= cap, evenly sampled otherwise; thorough cap 250), followed by a deterministic recovery on the same database file with an optional second crash. Oracle D1-D4: acknowledged => committed, restart changes nothing, no committed state is torn (registrations of completed promises, routed promise without task, request effect spread over two transactions), the stored backlog is worked off after restart unless the sweep concerned runs at full speed (capacity); the recovery includes a downtime, and whatever the other properties' statement-derived oracles object to in the crashed-and-recovered run but not in the crash-free run of the same case counts as a loss across the restart; commit failures (ambiguous outcome) are injected as well. Tier (b): real process, default store configuration, SIGKILL under load / SIGTERM / SIGINT, 1-3 kill-restart rounds, read-back of every acknowledged create/complete/subscription/schedule/lock, torn-state check on the database file, background sweep resumes; now and then the first start attempt meets a database another process holds locked: it may fail, the file may not vanish.",
                 note=SIM_NOTE + " SQLite's fsync/atomic-commit is trusted: a 'crash' drops the kernel with everything in flight and reopens the file. Tier (b) runs a real `resonate serve` (default store configuration) that is SIGKILLed at a drawn wall-clock instant under load or shut down with SIGTERM/SIGINT, restarted on the same file, and every acknowledged write read back (not reproducible in its timing; acknowledged set and server log are saved)."),
     "C07": simcheck("§4 C07", "Generated claim/complete/heartbeat traffic of two workers with current, stale and future counters against lease sweeps, dispatch cycles and promise completion; oracle T1-T6: claims only from unclaimed+matching counter, one success per (task,counter), counters monotone, finished is final, a holder loses the task only after its guaranteed lease (claim / create-with-task or last heartbeat committed before the lease end, + the ttl the holder asked for, not the stored column), by its own completion, task time-out or promise completion; refusals justified by a committed state in the window."),
     "C08": simcheck("§4 C08", "Generated routed/unrouted creations, create-with-task, registrations, completions and claims with the real sender worker and every hand-off outcome, router failures and task batch sizes; oracle B1-B6: invocation task born in the promise's transaction iff the tags route (reference predicate), outstanding tasks finished in the completing transaction, dispatch cycles pick only unclaimed tasks, one per root, none with an enqueued/claimed sibling, enqueued only after success, failed hand-off => attempt+1 and later retry, notify finished after its first attempt, message names (id,counter,links), and every task transition has a cause. Found F18 and F19 (repaired)."),
